@@ -27,6 +27,7 @@ def objOf (j : Json) : DumpObj :=
     getParser := textOutcome (get j "getParser"),
     serialize := textOutcome (get j "serialize"),
     unknown := unitOutcome (get j "unknown"),
+    readBack := unitOutcome (get j "readBack"),
     openErr := match get j "openErr" with | .str c => some (errOfName c) | _ => none,
     buildFail := match get j "buildFail" with
       | .arr a => (match a.toList with
